@@ -118,3 +118,60 @@ func Harness_C15_apq() {
 		zzsym.Reach("apq.mismatch")
 	}
 }
+
+// Harness_C15_history: explicit histories of 2..3 requests from an empty
+// store over {text only, text+own hash, text+other text's hash, hash only} x 2
+// texts: whatever came before, a hash-only request executes the text that was
+// sent with that same hash or is answered NotFound, and the store never maps a
+// hash to a text with a different SHA-256.
+func Harness_C15_history() {
+	cache := &c15Cache{m: map[string]string{}}
+	a := AutomaticPersistedQuery{Cache: cache}
+	n := zzsym.Param("hist", 2)
+	registered := map[string]string{} // what a correct store may hold: hash -> text sent with exactly that hash
+	for k := 0; k < n; k++ {
+		ti := zzsym.Choice("text", 2)
+		hi := zzsym.Choice("hashOf", 2)
+		mode := zzsym.Choice("mode", 4)
+		p := &graphql.RawParams{}
+		h := c15Hash(c15Texts[hi])
+		switch mode {
+		case 0:
+			p.Query = c15Texts[ti]
+		case 1:
+			p.Query = c15Texts[ti]
+			p.Extensions = map[string]any{"persistedQuery": map[string]any{"sha256Hash": c15Hash(c15Texts[ti]), "version": json.Number("1")}}
+			h = c15Hash(c15Texts[ti])
+		case 2:
+			p.Query = c15Texts[ti]
+			p.Extensions = map[string]any{"persistedQuery": map[string]any{"sha256Hash": h, "version": json.Number("1")}}
+		case 3:
+			p.Extensions = map[string]any{"persistedQuery": map[string]any{"sha256Hash": h, "version": json.Number("1")}}
+		}
+		ctx := graphql.WithOperationContext(context.Background(), &graphql.OperationContext{})
+		gerr := a.MutateOperationParameters(ctx, p)
+		switch mode {
+		case 1:
+			zzsym.Assert(gerr == nil, "text with its own hash is accepted")
+			registered[h] = c15Texts[ti]
+		case 2:
+			if hi == ti {
+				zzsym.Assert(gerr == nil, "text with its own hash is accepted")
+				registered[h] = c15Texts[ti]
+			} else {
+				zzsym.Assert(gerr != nil, "text with another text's hash is rejected")
+			}
+		case 3:
+			if want, ok := registered[h]; ok {
+				zzsym.Assert(gerr == nil && p.Query == want, "a hash-only request executes exactly the text registered with that hash")
+				zzsym.Reach("apq.history.hit")
+			} else {
+				zzsym.Assert(gerr != nil && gerr.Message == errPersistedQueryNotFound, "an unregistered hash is answered PersistedQueryNotFound")
+			}
+		}
+		for hk, tv := range cache.m {
+			zzsym.Assert(registered[hk] == tv, "the store holds exactly the (hash, text) pairs that were sent together")
+		}
+	}
+	zzsym.Reach("apq.history")
+}
